@@ -19,18 +19,21 @@ def cenv : CEnv where
   utf8enc := fun s => (String.ofList s).toUTF8.toList
   utf8dec := utf8dec
 
-/-- the environment of `urlsplit` for one call: the two answers the harness obtained from the real functions -/
-def uenv (a : Json) : R Env := do
-  let b := match fieldOpt a "bracketOk" with | some (.bool b) => b | _ => true
-  let n := match fieldOpt a "nfkcOk" with | some (.bool b) => b | _ => true
-  pure ⟨fun _ => b, fun _ => n⟩
-
 def optStr (j : Option Json) : R (Option Str) :=
   match j with
   | none => pure none
   | some v => do pure (some (← str v))
 
 def strList (j : Json) : R (List Str) := do (← arr j).mapM str
+
+/-- the environment of `urlsplit`: the answers the harness obtained from the real functions — either one pair of
+booleans (a single URL is parsed) or the lists of arguments for which the real function raised -/
+def uenv (a : Json) : R Env := do
+  let b := match fieldOpt a "bracketOk" with | some (.bool b) => b | _ => true
+  let n := match fieldOpt a "nfkcOk" with | some (.bool b) => b | _ => true
+  let bNo ← match fieldOpt a "bracketNo" with | some v => strList v | none => pure []
+  let nNo ← match fieldOpt a "nfkcNo" with | some v => strList v | none => pure []
+  pure ⟨fun s => b && !bNo.contains s, fun s => n && !nNo.contains s⟩
 
 def escName : Esc → String
   | .valueError => "ValueError" | .keyError => "KeyError" | .structError => "struct.error" | .typeError => "TypeError"
